@@ -68,6 +68,13 @@ def item_src(L, entry, order=0, generic=False, guise=()):
         head = "#[::derive_ex::derive_ex(%s%s)]" % (", ".join(ts), tc)
     elif entry == "derive":
         head = "#[derive(::derive_ex::Ex)] #[derive_ex(%s%s)]" % (", ".join(ts), tc)
+    elif entry == "path2":
+        # two stacked, path-spelled attribute-macro invocations: the comparison traits (their helper attributes are consumed by that
+        # expansion) and everything else
+        cmpts = [t for t in ts if t in ("Ord", "PartialOrd", "Eq", "PartialEq", "Hash")]
+        rest = [t for t in ts if t not in cmpts]
+        lists = [l for l in (cmpts, rest) if l]
+        head = " ".join("#[::derive_ex::derive_ex(%s%s)]" % (", ".join(l), tc) for l in lists)
     else:   # split lists through the derive entry
         k = max(1, len(ts) // 2)
         mid = " #[allow(dead_code)] " if "foreign_attrs" in guise else " "
